@@ -2875,16 +2875,14 @@ def groupby_reduce(
                 f"Received method={method!r}"
             )
 
-        if (
-            _is_arg_reduction(agg)
-            and method == "blockwise"
-            and not all(nchunks == 1 for nchunks in array.numblocks[-nax:])
-        ):
+        # a numpy array grouped by dask labels is chunked like the labels
+        numblocks = (array if is_duck_dask_array(array) else by_).numblocks
+        if _is_arg_reduction(agg) and method == "blockwise" and not all(nchunks == 1 for nchunks in numblocks[-nax:]):
             raise NotImplementedError(
                 "arg-reductions are not supported with method='blockwise', use 'cohorts' instead."
             )
 
-        if method == "blockwise" and any_by_dask and not all(nchunks == 1 for nchunks in array.numblocks[-nax:]):
+        if method == "blockwise" and any_by_dask and not all(nchunks == 1 for nchunks in numblocks[-nax:]):
             raise NotImplementedError(
                 "method='blockwise' with dask group labels is only supported for a single block along "
                 "the reduced axes: which groups a block holds is not known when the graph is built."
